@@ -6,12 +6,12 @@ from harness.common import coq_list, coq_bool
 CORPUS = os.path.join(common.VERIF, "corpus", "C04")
 REQ = ["Verif.gen.OrderGen", "Verif.lib.Order"]
 FATES = {0: "FPlain", 1: "FGift", 2: "FRejectEarly", 3: "FRejectLate"}
-OK_KINDS = ("plain", "gift")
+OK_KINDS = ("plain", "slow", "gift")
 
 
 # ------------------------------------------------------------------ scenario generators
 def rand_spec(rng, depth=0, allow_gift=True):
-    kinds = [("plain", 46), ("gift", 14 if allow_gift else 0), ("early", 10), ("abort", 7), ("late", 9), ("local", 5)]
+    kinds = [("plain", 40), ("slow", 8), ("gift", 14 if allow_gift else 0), ("early", 10), ("abort", 7), ("late", 9), ("local", 5)]
     tot = sum(w for _, w in kinds)
     x = rng.randrange(tot)
     for k, w in kinds:
@@ -50,8 +50,10 @@ def rand_script(rng, n, gifts=True):
             sc.append(["deliver", 0, rand_chunks(rng)])
         elif x < 0.75:
             sc.append(["deliver", 1, rand_chunks(rng)])
-        elif x < 0.83:
+        elif x < 0.82:
             sc.append(["gift", 0, rng.randrange(4), rng.random() < 0.75])
+        elif x < 0.86:
+            sc.append(["finish", 0 if rng.random() < 0.8 else 1, rng.randrange(3), rng.random() < 0.5])
         else:
             sc.append(["turn"])
     return sc
@@ -79,6 +81,32 @@ def gift_block(rng, k, ok, chunks):
     sc += [["deliver", 0, chunks] for _ in range(k + 1)]
     sc += [["turn"], ["turn"]]
     sc += [["gift", 0, 0, ok], ["turn"], ["gift", 0, 0, True], ["turn"], ["turn"]]
+    return sc
+
+
+def failure_behind_gift(rng, variant, resolve, k, chunks):
+    """a call has been popped by doNextCall and waits for its third-party reference; meanwhile a failure is reported for
+    ANOTHER call -- variant 'reject': a later inbound call is refused by the receiver's schema while it is being
+    deserialized (CallUnslicer.reportViolation -> Broker.callFailed); variant 'errback': a method entered earlier,
+    which returned a Deferred, fails late (the delivery's own errback -> Broker.callFailed).  Neither may release the
+    calls queued behind the waiting one.  resolve: 'late' (after the later calls arrived), 'fail', or 'never' (only
+    the final quiescence resolves it)"""
+    later = [["issue", 0, dict(kind=rng.choice(("plain", "plain", "slow", "late")), only=rng.random() < 0.2)] for _ in range(k)]
+    sc = []
+    if variant == "errback":
+        sc += [["issue", 0, dict(kind="slow")], ["deliver", 0, chunks], ["turn"]]
+    sc += [["issue", 0, dict(kind="gift")], ["deliver", 0, chunks], ["turn"], ["turn"]]      # popped, waiting
+    if variant == "reject":
+        bad = ["issue", 0, dict(kind="early", only=rng.random() < 0.3)]
+        pos = rng.randint(0, len(later) - 1)
+        later = later[:pos] + [bad] + later[pos:]
+    sc += later
+    sc += [["deliver", 0, chunks] for _ in later]
+    if variant == "errback":
+        sc += [["finish", 0, 0, False]]
+    sc += [["turn"], ["turn"], ["turn"]]
+    if resolve != "never":
+        sc += [["gift", 0, 0, resolve != "fail"], ["turn"], ["turn"], ["turn"]]
     return sc
 
 
@@ -310,7 +338,7 @@ Eval vm_compute in send_idle_before_enqueue.
 
 # ------------------------------------------------------------------ entry point
 def run(ctx):
-    ctx.rule = ("a scenario is a script of issue (plain / streaming argument that pauses on 1-3 Deferreds / third-party "
+    ctx.rule = ("a scenario is a script of issue (plain / method returning a Deferred that completes or errbacks later / streaming argument that pauses on 1-3 Deferreds / third-party "
                 "reference / schema-violating argument / unserializable argument / missing argument / locally refused; "
                 "callRemote or callRemoteOnly; optionally issuing further calls from inside the remote_ method), "
                 "release-stall, deliver-up-to-next-call (random chunk sizes), resolve-or-fail-gift and eventual-turn steps "
@@ -380,6 +408,12 @@ def run(ctx):
         for okv in (True, False):
             for rep in range(ctx.n(2, 6)):
                 do("gift-block-%d-%s-%d" % (k, okv, rep), gift_block(rng, k, okv, rand_chunks(rng)))
+    for variant in ("reject", "errback"):
+        for resolve in ("late", "fail", "never"):
+            for k in range(1, ctx.n(4, 7)):
+                for rep in range(ctx.n(2, 5)):
+                    do("failure-behind-gift-%s-%s-%d-%d" % (variant, resolve, k, rep),
+                       failure_behind_gift(rng, variant, resolve, k, rand_chunks(rng)))
     # 3. random scripts
     for i in range(ctx.n(260, 6000)):
         n = rng.choice((8, 12, 16, 24, 32, 48))
